@@ -3,7 +3,7 @@
 # Confirms in a scratch worktree (outside /repo and /verif): patch applies, crate builds, existing tests pass with it,
 # demo fails with it and passes without it. Prints a one-line verdict and writes <dir>/confirm.log
 D=$(readlink -f "$1")
-WT=/tmp/confirm-wt
+WT=${CONFIRM_WT:-/tmp/confirm-wt}
 export CARGO_NET_OFFLINE=true
 if [ ! -d $WT ]; then git -C /repo worktree add -q --detach $WT HEAD || exit 2; fi
 cd $WT && git checkout -q -- . && git clean -fdq tests
